@@ -92,7 +92,24 @@ class World:
                     break
                 cur = join(cur, new)
             else:
+                # the ascending iteration did not settle (e.g. a counter reduced modulo a
+                # constant climbs one step per round): descend from the type range instead -
+                # every iterate of the descending chain is a sound invariant
                 cur = tr
+                for it in range(4):
+                    self.field_inv[key] = cur
+                    self.in_progress.discard(key)
+                    new = None
+                    for r in self._field_writes(adt, idx):
+                        if r is None or r[0] > r[1]:
+                            continue
+                        new = join(new, r)
+                    self.field_inv.pop(key, None)
+                    self.in_progress.add(key)
+                    new = meet(new, cur) if new is not None and new != TOP else cur
+                    if new == cur:
+                        break
+                    cur = new
         finally:
             self.in_progress.discard(key)
             self.iterating -= 1
@@ -452,6 +469,10 @@ class Prover:
                 return (ra[0], rb[1] - 1)
             base = t[1]
             p = util.adt_path_of(self.ctx, self.se, base)
+            if p is None:
+                bt = self.type_of(base)
+                bt = bt.peel_refs() if bt is not None else None
+                p = bt.path if bt is not None and bt.k == "adt" else None
             if p and p in self.fb.adts:
                 r = self.w.field_range(p, t[2])
                 if r is not None:
